@@ -221,6 +221,19 @@ def check_tx(res, N, exons, strand, cds, f0, a, b, cs="+"):
             ep = None
         if ep is not None and (o[0] != "ok" or o[1] != ep):
             res.deviation("cds.translate", dict(op="cds.translate", **ccase), o[1], ep, sig="chunk-translate")
+    # the chromosome-level codon answers do not depend on what the object was asked before: a fresh chunk twin that is
+    # asked for its chunk-relative codons FIRST still counts and places every chromosome codon
+    if allc:
+        T6 = mk(chunk)
+        lib.outcome(lambda: T6.cds.chunk_relative_codon_locations)
+        lib.outcome(lambda: T6.cds.num_chunk_relative_codons)
+        for name, fn, e in (("num_codons", lambda: T6.cds.num_codons, len(allc)),
+                            ("chromosome_codon_locations", lambda: codon_pos(T6.cds.chromosome_codon_locations), allc),
+                            ("scan_chromosome_codon_locations", lambda: codon_pos(list(T6.cds.scan_chromosome_codon_locations())), allc)):
+            o = lib.outcome(fn)
+            res.trans()
+            if o[0] != "ok" or o[1] != e:
+                res.deviation(name, dict(op=name + "-after-chunk-codons", **ccase), o[1], [list(c) for c in e] if isinstance(e, list) else e, sig="chromosome-codons-after-chunk-codons")
     # chunk_relative_frames describe that reading frame (only meaningful when the CDS has a base in the chunk)
     cds_inside = [p for p in F.tx_positions(cb, strand) if a <= p < b]
     first_chunk_block_len = 0
@@ -332,6 +345,7 @@ def check_collections(res, N, exons, strand, a, b):
             res.deviation(f"{cname}.chunk_relative_location", dict(op=f"{cname}.chunk_relative_location", **case), o[1], exp, sig=f"chunk-{cname}-location")
         elif exp:
             cmp(res, f"{cname}.get_reference_sequence", case, lib.outcome(lambda: str(x1.get_reference_sequence())), genome[min(exp) : max(exp) + 1], f"chunk-{cname}-refseq")
+    _check_shared_children(res, case, genome, exons, strand, cb, frames, first, a, b, chrom, chunk)
     # annotation collection built on a chunk: bounds inferred from the chunk; members keep chromosome coordinates
     g1, fc1 = o1[1]
     o = lib.outcome(lambda: AnnotationCollection(feature_collections=[fc1], genes=[g1], sequence_name="chrV", parent_or_seq_chunk_parent=chunk))
@@ -343,6 +357,56 @@ def check_collections(res, N, exons, strand, a, b):
     cmp(res, "AnnotationCollection.bounds", case, lib.outcome(lambda: (ac.start, ac.end)), (a, b), "chunk-ac-bounds")
     cmp(res, "AnnotationCollection.members", case, lib.outcome(lambda: [(c.start, c.end) for c in ac.iter_children()]), [(lo, hi), (lo, hi)], "chunk-ac-members")
     cmp(res, "AnnotationCollection.sequence", case, lib.outcome(lambda: str(ac.get_reference_sequence())), genome[a:b], "chunk-ac-sequence")
+
+
+def _check_shared_children(res, case, genome, exons, strand, cb, frames, first, a, b, chrom, chunk):
+    """two views that share their child OBJECTS: a whole-chromosome gene / feature collection, and a chunk gene / feature
+    collection / annotation collection built afterwards from the very same children. Building the chunk view changes none
+    of the answers of the whole-chromosome view (asked for the first time after the chunk view exists)"""
+    tx1 = lib.mk_tx(exons, strand, cb, frames, chrom, sequence_name="chrV", transcript_id="t1")
+    tx2 = lib.mk_tx(first, strand, parent=chrom, sequence_name="chrV", transcript_id="t2")
+    f1 = lib.mk_feat(exons, strand, chrom, sequence_name="chrV", feature_name="f1", feature_types=["a"])
+    o = lib.outcome(lambda: (GeneInterval([tx1, tx2], gene_id="g1", gene_symbol="G", sequence_name="chrV", parent_or_seq_chunk_parent=chrom),
+                             FeatureIntervalCollection([f1], feature_collection_name="fc", sequence_name="chrV", parent_or_seq_chunk_parent=chrom)))
+    if o[0] != "ok":
+        return
+    whole_g, whole_fc = o[1]
+    o = lib.outcome(lambda: (GeneInterval([tx1, tx2], gene_id="g1", gene_symbol="G", sequence_name="chrV", parent_or_seq_chunk_parent=chunk),
+                             FeatureIntervalCollection([f1], feature_collection_name="fc", sequence_name="chrV", parent_or_seq_chunk_parent=chunk)))
+    res.trans(2)
+    if o[0] != "ok":
+        res.deviation("constructor", dict(op="shared-ctor", **case), o[1], "objects", sig="shared-chunk-ctor-raises")
+        return
+    part_g, part_fc = o[1]
+    o2 = lib.outcome(lambda: AnnotationCollection(genes=[whole_g], feature_collections=[whole_fc], sequence_name="chrV", parent_or_seq_chunk_parent=chunk))
+    res.trans()
+    if o2[0] == "exc" and not lib.is_documented_exc(o2[2]):
+        res.deviation("AnnotationCollection", dict(op="shared-ac-ctor", **case), o2[1], "object or documented exception", sig="shared-ac-ctor-internal-error")
+    Pm = M.P(exons, strand)
+    Pf = M.P(first, strand)
+    eseq = F.splice(genome, Pm, strand)
+    allc = F.codons(F.exons_5to3(cb, strand), F.frames_5to3(frames, strand))
+    ecds = "".join(F.splice(genome, c, strand) for c in allc)
+    asks = [
+        ("gene.children-locations", lambda: [M.P(lib.loc_blocks(t.chunk_relative_location), strand) for t in whole_g.transcripts], [Pm, Pf]),
+        ("gene.children-dicts", lambda: [(t.to_dict()["exon_starts"], t.to_dict()["exon_ends"]) for t in whole_g.transcripts],
+         [([s_ for s_, _ in exons], [e_ for _, e_ in exons]), ([first[0][0]], [first[0][1]])]),
+        ("gene.primary-transcript-sequence", lambda: str(whole_g.get_primary_transcript_sequence()), eseq),
+        ("gene.transcript-sequences", lambda: [str(t.get_spliced_sequence()) for t in whole_g.transcripts], [eseq, F.splice(genome, Pf, strand)]),
+        ("gene.chunk_relative_location", lambda: lib.loc_blocks(whole_g.chunk_relative_location), ((exons[0][0], exons[-1][1]),)),
+        ("feature_collection.children-locations", lambda: [M.P(lib.loc_blocks(f.chunk_relative_location), strand) for f in whole_fc.feature_intervals], [Pm]),
+        ("feature_collection.feature-sequences", lambda: [str(f.get_spliced_sequence()) for f in whole_fc.feature_intervals], [eseq]),
+    ]
+    if allc:
+        asks += [("gene.primary-cds-sequence", lambda: str(whole_g.get_primary_cds_sequence()), ecds),
+                 ("gene.cds-codons", lambda: codon_pos(whole_g.transcripts[0].cds.chunk_relative_codon_locations), allc)]
+    for name, fn, e in asks:
+        o = lib.outcome(fn)
+        res.trans()
+        if o[0] != "ok" or o[1] != e:
+            res.deviation(name, dict(op="shared:" + name, **case), o[1], e, sig="shared-children-" + name)
+    # ... and the chunk view itself still answers its own chromosome-level questions
+    cmp(res, "shared.part.start_end", case, lib.outcome(lambda: (part_g.start, part_g.end, part_fc.start, part_fc.end)), (exons[0][0], exons[-1][1]) * 2, "shared-part-bounds")
 
 
 def run_shard(shard):
